@@ -343,3 +343,30 @@ def conflict_kinds(case):
         multi = len(case["drivers"]) > 1
         kinds.add("disjoint_multi_driver" if multi else "single_driver")
     return kinds
+
+
+# ---------------------------------------------------------------- driver placement under control inserters / renamers
+def apply_wrappers(case):
+    """Drivers of a wrapped placement after the wrappers took effect.  case["wrap"] = {"pos": "top"|"child", "chain": [[kind,
+    arg], ...]} with the INNERMOST wrapper first; kind "R" (ResetInserter) / "E" (EnableInserter) only add statements to
+    the domains the wrapped logic already uses, so they change no owner; kind "D" (DomainRenamer, arg = {old: new} or a
+    string meaning {"sync": arg}) substitutes the domain of every driver inside the wrapped subtree (top wraps top and
+    child, child wraps child only), one simultaneous substitution per renamer, inner renamer first."""
+    wrap = case.get("wrap")
+    out = []
+    for kind, module, domain, sig, mask in case["drivers"]:
+        if wrap and kind == "L" and domain != "comb" and (wrap["pos"] == "top" or module == "child"):
+            for wk, arg in wrap["chain"]:
+                if wk == "D":
+                    dmap = {"sync": arg} if isinstance(arg, str) else arg
+                    domain = dmap.get(domain, domain)
+        out.append([kind, module, domain, sig, mask])
+    return out
+
+
+def wrapped_truth(case):
+    """-> 'ok' | 'DriverConflict' | 'SyntaxError' for a wrapped placement.  The DSL's statement-time check sees the design as
+    written (before any wrapper is applied); conversion sees the owners after the renamers' substitution."""
+    if case["frontend"] == "dsl" and driver_truth(dict(case, frontend="dsl")) == "SyntaxError":
+        return "SyntaxError"
+    return driver_truth({"widths": case["widths"], "frontend": "frag", "drivers": apply_wrappers(case)})
